@@ -23,7 +23,7 @@ RULE = ("one evaluation = one captured aggregate-interval computation (aggregate
         "among nonreporting units, levels); non-trivial = at least two different sources were used in the same computation, or a "
         "group had no calibration unit at all")
 ASSUMPTIONS = [
-    "the scale is re-bootstrapped with scipy.stats.bootstrap (trusted) and must agree within 4 % (bit-for-bit agreement with the model's seed is only counted as a probe); with winsorize=True only the 'same source => same scale' clause is checked",
+    "the scale is re-bootstrapped with scipy.stats.bootstrap (trusted) and must agree within 4 % (bit-for-bit agreement with the model's seed is only counted as a probe); with winsorize=True the reference statistic is the standard deviation after replacing the 5 % tails of each sample by the nearest remaining value",
     "reported bounds are compared with the formula at +-1 vote (rounding)",
     "centre / inflation compared at 1e-12 relative",
 ]
@@ -36,7 +36,7 @@ def budget(tier):
 
 WORLD = dict(offices=["G", "S", "H"], unit_types=["precinct", "precinct", "county"], n_states=(1, 4), n_counties=(2, 8),
              n_units=(2, 12), zero_baseline_frac=0.03)
-PROFILE = dict(estimators=["gaussian"], winsorize_p=0.02, outlier_models_p=0.05, n_alphas=(1, 2), max_estimands=2,
+PROFILE = dict(estimators=["gaussian"], winsorize_p=0.06, outlier_models_p=0.05, n_alphas=(1, 2), max_estimands=2,
                thresholds=[100, 90, 60, 100], agg_subset=True, always_unit=True)
 FEED = dict(p_loss=0.03, n_foreign=(0, 2), max_polls=2, poll_every=(60.0, 200.0), start_polls_after=200.0, surge_frac=0.04)
 
@@ -58,8 +58,21 @@ def weighted_median(x, w):
     return float(xs[k + 1])
 
 
-def boot_scale(x, conf, seed):
-    r = sps.bootstrap(x.reshape(1, -1), lambda a, axis: np.std(a, ddof=1, axis=-1), confidence_level=conf, method="basic",
+def winsorized_std(a, axis=-1):
+    """Reference for the winsorize option: within each sample (last axis) the lowest and highest 5 % of the values are replaced
+    by the nearest remaining value, then the sample standard deviation is taken."""
+    s = np.sort(np.asarray(a, dtype=float), axis=-1)
+    n = s.shape[-1]
+    k = int(0.05 * n)
+    if k > 0:
+        s[..., :k] = s[..., k:k + 1]
+        s[..., n - k:] = s[..., n - k - 1:n - k]
+    return np.std(s, ddof=1, axis=-1)
+
+
+def boot_scale(x, conf, seed, winsorize=False):
+    stat = winsorized_std if winsorize else (lambda a, axis: np.std(a, ddof=1, axis=-1))
+    r = sps.bootstrap(x.reshape(1, -1), stat, confidence_level=conf, method="basic",
                       n_resamples=10000, random_state=np.random.default_rng(seed))
     return float(r.confidence_interval.high)
 
@@ -159,8 +172,10 @@ class Checker(C.BaseChecker):
                     out.append(self.v("scale_not_shared", f"{keys}{g}: groups sharing source {src} carry different scales {sigma_by_source[src]} vs {sig}", **flags))
                 elif src not in sigma_by_source:
                     sigma_by_source[src] = sig
-                    if not wins and len(idx) >= 2:
-                        want_s = (beta * boot_scale(cl[ii], q, seed), beta * boot_scale(cu[ii], q, seed))
+                    if len(idx) >= 2:
+                        want_s = (beta * boot_scale(cl[ii], q, seed, wins), beta * boot_scale(cu[ii], q, seed, wins))
+                        if wins:
+                            st.probes["winsorized_scale_recomputed"] += 1
                         if C.close(sig[0], want_s[0], rel=1e-12) and C.close(sig[1], want_s[1], rel=1e-12):
                             st.probes["scale_reproduced_bit_for_bit"] += 1
                         # the statement asks for the bootstrapped scale of the source's calibration units, not for a particular
